@@ -191,7 +191,7 @@ def run(ctx):
                     ctx.fail("oracle", f"c02:charge:{which}", f"{which} factor {part} carries charge {r.n}, expected {want} ({kwf})", case=case, concrete=True)
     # results on lazily held / fused operands are consistent too (is_consistent + exact relations)
     from .. import views
-    views.run(ctx, 250 if ctx.quick else 4000, 15 if ctx.quick else 200, which=("R1", "R3", "R3"))
+    views.run(ctx, 250 if ctx.quick else 4000, 15 if ctx.quick else 200, which=("R1", "R3", "R3", "R7"))
 
 
 def search(ctx, broken, budget):
